@@ -7,18 +7,25 @@ GENERATED = []
 SOURCES = ["src/allmydata/dirnode.py", "src/allmydata/nodemaker.py", "src/allmydata/unknown.py",
            "src/allmydata/util/hashutil.py"]
 DESIGN_REF = "DESIGN.md §2 C18"
-TECHNIQUE = ("Lean 4 theorems: Dolev-Yao non-derivability of child write caps from a read cap plus the packed entries "
-             "(invariant 'Good' closed under every derivation rule), derivation and computation of the rw_uri with the "
-             "write key, no write cap on any node created by _unpack_contents through a read-only parent, transitivity "
-             "along paths; correspondence of _unpack_contents through write and read handles on the decrypted contents "
-             "of real nested directories with the C19 model; implementation-side monitor on real directory plaintext")
-LEVEL_TEXT = ("Symbolic secrecy, recovery and read-only transitivity proved in Lean; the unpack model (rw_uri forced empty "
-              "for read-only parents, create_from_cap) is tied to the code by comparing the children unpacked through the "
-              "write handle and the read handle of every directory of random nested graphs; the monitor searches the "
-              "real plaintext a read-cap holder downloads for every child's write cap.")
+TECHNIQUE = ("Lean 4 theorems: Dolev-Yao non-derivability of every secret write cap from a read cap plus all packed entries "
+             "(invariant 'Good' closed under every derivation rule: derivable_good, readcap_cannot_derive_child_writecap), "
+             "derivation and computation of the rw_uri with the write key (writecap_recovers), no write cap on any node "
+             "_unpack_contents creates through a read-only parent (createFromCap_none_rw, ro_children_ro) and along any path "
+             "(read_only_is_transitive), a cap given only in the write slot never reaches a clear-text slot "
+             "(rw_only_cap_never_in_ro_slot, lone_unknown_cap_is_not_packed), a blacklisted child re-packed keeps its write "
+             "cap encrypted (prohibited_repack_keeps_writecap_encrypted); correspondence with the C19 pack/unpack model "
+             "(_unpack_contents through write and read handles, pack of ProhibitedNode views, every rwcapdata field "
+             "recomputed per child); implementation-side monitor with a read-cap-only adversary on real nested directories")
+LEVEL_TEXT = ("Symbolic secrecy, write-cap recovery, read-only transitivity, lone-write-slot-cap and ProhibitedNode theorems "
+              "proved in Lean (9 theorems).  The unpack/pack model (rw_uri forced empty for read-only parents, "
+              "create_from_cap, prohibitedView) is tied to the code by comparing the children unpacked through the write and "
+              "the read handle of every directory of random nested graphs, the packed entries of blacklisted children and "
+              "the per-child salt/key/ciphertext/MAC of every rwcapdata field.  Monitor only (no theorem): the node cache "
+              "must not hand a writeable node to a read-only parent (cold/warm walks with write attempts), and no key-stream "
+              "reuse between siblings (xor adversary).")
 LEVEL_NOTE = ("Lean kernel + standard axioms; symbolic (Dolev-Yao) secrecy only: hashes one-way, AES-CTR/HMAC ideal, no "
               "guessing (the deterministic salt H(rw_uri) lets a holder of a candidate write cap confirm it); the MAC is "
-              "produced but, as in the code, not checked.")
+              "produced but, as in the code, not checked; the model has no node cache.")
 RULE = ("random nested directory graphs (as C21: mutable SDMF/MDMF directories with cycles, immutable directories, "
         "CHK/LIT/mutable files, unknown caps with ro./imm. prefixes, links by write cap and by read cap) on the grid, each "
         "examined COLD (a second client that never saw a write cap opens the read caps) and WARM (the client that built "
@@ -39,9 +46,15 @@ RULE = ("random nested directory graphs (as C21: mutable SDMF/MDMF directories w
         "non-trivial = the directory has a child linked by write cap / "
         "the walk reaches at least 2 nodes")
 TRUSTED = ["lean/Tahoe/Dir/Authority.lean: term algebra and derivation rules chosen by hand to mirror _encrypt_rw_uri",
-           "harness/props/c19.py helpers (re-framing of ciphertexts, cap classification by the real uri.from_string)"]
+           "lean/Tahoe/Dir/Pack.lean (shared with C19): hand transcription of _unpack_contents, create_from_cap, UnknownNode and "
+           "of what packing reads of a ProhibitedNode",
+           "harness/props/c19.py helpers (re-framing of ciphertexts, cap classification by the real uri.from_string) and "
+           "harness/props/c21.py graph builder"]
 ASSUMPTIONS = ["ideal cryptography (symbolic model); write keys of distinct objects are independent secrets",
-               "the ro_uri slot of a packed entry holds get_readonly_uri() of the child (what _pack_normalized_children writes)"]
+               "the ro_uri slot of a packed entry holds get_readonly_uri() of the child (what _pack_normalized_children writes; "
+               "hypothesis hslot of ro_children_ro)",
+               "node-cache sharing between write-cap and read-cap handles and AES-CTR key-stream reuse are outside the model "
+               "(monitor / correspondence only)"]
 
 import json
 import os
